@@ -51,3 +51,10 @@ package unshare
 //@   callsite return: assert @C08 @C09 int(result.Status) != 8 && uint64(userMem) <= uint64(r.Limit.MemoryLimit) && int64(userTime) <= int64(r.Limit.TimeLimit) && ws_exited(uint32(wstatus)) ==> int(result.Status) == status_of_exit(ws_exitcode(uint32(wstatus))) && result.ExitStatus == ws_exitcode(uint32(wstatus))
 //@   callsite return: assert @C08 @C09 int(result.Status) != 8 && uint64(userMem) <= uint64(r.Limit.MemoryLimit) && int64(userTime) <= int64(r.Limit.TimeLimit) && ws_signaled(uint32(wstatus)) ==> int(result.Status) == status_of_signal(ws_termsig(uint32(wstatus))) && result.ExitStatus == ws_termsig(uint32(wstatus))
 //@   loop 0: invariant r == old(r) && int(status) == 1 && cancel != nil
+
+// the cancellation goroutine: when the caller's context ends the whole process group is killed
+//@ func runner/unshare.(*Runner).Run$1 props C12
+//@   arith bv
+//@   requires ctx != nil
+//@   assigns T.kill_count, T.kill_last_pid, T.kill_last_sig
+//@   ensures T.kill_count == old(T.kill_count) + 1 && T.kill_last_pid == -pgid && T.kill_last_sig == 9
